@@ -341,6 +341,25 @@ Theorem C14_field_matcher_get_is_lookup :
 Proof. exact fm_get_is_lookup. Qed.
 Print Assumptions C14_field_matcher_get_is_lookup.
 
+(* FieldMatcher{Name, Create}: an absent field is created holding the value (and Get then finds it);
+   a present one is returned and the mapping is unchanged *)
+Theorem C14_field_matcher_create :
+  forall (nonstr : string -> bool) (name : string) (c : node) (kvs : list (string * node)),
+    name <> "" -> is_null c = false -> find_field name kvs = None ->
+    field_matcher nonstr name None (Some c) (Map kvs) =
+      Ok (Map (kvs ++ [(name, quote11 nonstr c)]), Some (quote11 nonstr c)) /\
+    fm_get nonstr name (Map (kvs ++ [(name, quote11 nonstr c)])) =
+      Ok (Map (kvs ++ [(name, quote11 nonstr c)]), Some (quote11 nonstr c)).
+Proof. exact field_matcher_create_absent. Qed.
+Print Assumptions C14_field_matcher_create.
+
+Theorem C14_field_matcher_create_present :
+  forall (nonstr : string -> bool) (name : string) (c : node) (kvs : list (string * node)) (f : node),
+    name <> "" -> find_field name kvs = Some f ->
+    field_matcher nonstr name None (Some c) (Map kvs) = Ok (Map kvs, Some f).
+Proof. exact field_matcher_create_present. Qed.
+Print Assumptions C14_field_matcher_create_present.
+
 (* ---------- ElementSetter on a keyed list: lens laws ----------
    Hypotheses: one non-empty key k with a non-empty value v; [clean es]: the list has no null and no empty-mapping
    element (ElementSetter silently drops those, see C14_elem_setter_unclean_refuted); the element written
